@@ -28,7 +28,14 @@ impl<T: Iterator<Item = Token>> TryFrom<&mut Peekable<T>> for ComponentTypeList<
         loop {
             let continues = if iter.next_is_separator_and_eq('}') {
                 false
-            } else if iter.next_is_separator_and_eq('.') {
+            } else if let Ok(extension_marker) = iter.next_if_separator_and_eq('.') {
+                // the extension marker is stored as the index of the field in front of it, so
+                // (like for CHOICE and ENUMERATED) it cannot come first
+                if sequence.fields.is_empty() {
+                    return Err(Error::invalid_position_for_extension_marker(
+                        extension_marker,
+                    ));
+                }
                 iter.next_separator_eq_or_err('.')?;
                 iter.next_separator_eq_or_err('.')?;
                 let field_len = sequence.fields.len();
